@@ -90,7 +90,7 @@ def make(N, delay):
 
 
 def contracts(tier):
-    lengths = (1, 2, 3, 4, 8) if tier == "quick" else (1, 2, 3, 4, 5, 6, 7, 8, 16, 32)
+    lengths = (1, 2, 3, 4, 8, 17) if tier == "quick" else (1, 2, 3, 4, 5, 6, 7, 8, 15, 16, 17, 32, 33)
     for n in lengths:
         for delay in (False, True):
             yield ("stretch_strobe_signal", f"to{n}_{'delay' if delay else 'nodelay'}", make(n, delay))
